@@ -8,7 +8,8 @@ Closed list of rewrites (DESIGN.md section 2.1):
   R5  contract clauses / loop invariants / proof prologues inserted (ghost only)
   R6  unimplemented!/todo!/unreachable!/panic! -> verif_panic()
   R7  attributes and doc comments on extracted items removed (enums get a fixed derive list)
-  R8  (V2 only, see contracts) configured textual substitutions, each listed in the extraction report
+  R8  configured textual substitutions / cuts (side-car `subst`, `cut`), each listed in the extraction report
+  R9  crate path qualifiers (`garnish_lang_traits::`, `crate::…::`) dropped: the generated file is a single crate
 Anything else the verifier rejects makes the unit undecided.
 """
 import hashlib, json, os, re, sys
